@@ -22,6 +22,8 @@ def first_line(path):
 rows = []
 for f in sorted(glob.glob(os.path.join(VERIF, "seeded", "*", "meta.json"))):
     m = json.load(open(f))
+    if m.get("kept") is False:
+        continue
     d = os.path.dirname(f)
     own = m["property"]
     det = m.get("detected_by", []) + [c + "(thorough)" for c in m.get("detected_by_thorough", [])]
